@@ -178,8 +178,23 @@ static void one_case(long idx, void *arg)
         for (int i = 0; i < ncfd; i++) { for (int k = 0; k < 12; k++) { vctl_send_get(cfds[i], "xcm.type"); if (k % 4 == 3) vctl_send_get_all(cfds[i]); } }
         if (ncfd) vobs("ctl_clients_not_reading", ncfd);
     }
+    if (c.st == ST_BACKPRESSURED && (c.tp == TP_TCP || c.tp == TP_TLS || c.tp == TP_UTLS_TLS) && v.cl.s && v.ac.s) {
+        /* make the frame that is held back a partly written one: the peer takes two messages, the sender refills with writes that the layer
+         * below takes in small pieces, until the kernel is full again - in the middle of a frame */
+        unsigned char *big = malloc(65536); int got = 0;
+        for (int i = 0; i < 400 && got < 2; i++) { if (vx_receive(&v.ac, big, 65535) > 0) got++; else { struct pollfd none; vs_real_poll(&none, 0, 1); } }
+        v.cl.plan.frag_send_pct = 100; v.cl.plan.frag_max = 30000;
+        memset(big, 0x43, 60000); int refused = 0;
+        for (int i = 0; i < 400 && refused < 3; i++) { int rc1 = vx_send(&v.cl, big, 60000); if (rc1 < 0 && errno == EAGAIN) refused++; else if (rc1 < 0) break; else refused = 0; }
+        v.cl.plan.frag_send_pct = 0;
+        free(big);
+        take_alarms("refill");
+        if (refused >= 3) vobs("backpressure_rebuilt_with_small_writes", 1);
+    }
     int nops = va.thorough ? 400 : 150;
     if (v.cl.s) exercise(&v.cl, &r, nops, false, &v);
+    /* a sender that closes while its peer is still not reading: whatever is held back (a frame written in part) must not be waited for */
+    if (v.cl.s && vrnd_p(&r, 50)) { struct vcnt cn; if (vx_read_counters(&v.cl, &cn) && cn.v[1] != cn.v[2]) { vobs("closes_with_output_still_held", 1); if (cn.v[2] % 60004 && c.tp == TP_TCP) vobs("closes_with_a_frame_written_in_part", 1); } vx_close(&v.cl); take_alarms("xcm_close"); triple("xcm_close"); vobs("closes_before_the_peer_reads", 1); }
     if (v.ac.s) exercise(&v.ac, &r, nops / 2, false, &v);
     if (v.sv.s) exercise(&v.sv, &r, nops / 3, true, &v);
     /* closing in every phase must not wait either */
